@@ -1,7 +1,5 @@
 import ScrapliProps.C05Lemmas
 import ScrapliModel.Bytes
-import ScrapliProps.C05.eosSFull_session0_own
-import ScrapliProps.C05.eosSFull_session1_own
 import ScrapliProps.C05.eosS_configuration_det
 import ScrapliProps.C05.eosS_configuration_for
 import ScrapliProps.C05.eosS_configuration_own
@@ -44,9 +42,6 @@ import ScrapliProps.C05.iosxr_configuration_own
 import ScrapliProps.C05.iosxr_privilege_exec_det
 import ScrapliProps.C05.iosxr_privilege_exec_for
 import ScrapliProps.C05.iosxr_privilege_exec_own
-import ScrapliProps.C05.junosFull_configuration_for
-import ScrapliProps.C05.junosFull_shell_for
-import ScrapliProps.C05.junosFull_shell_own
 import ScrapliProps.C05.junos_configuration_det
 import ScrapliProps.C05.junos_configuration_for
 import ScrapliProps.C05.junos_configuration_own
@@ -59,9 +54,6 @@ import ScrapliProps.C05.junos_root_shell_own
 import ScrapliProps.C05.junos_shell_det
 import ScrapliProps.C05.junos_shell_for
 import ScrapliProps.C05.junos_shell_own
-import ScrapliProps.C05.nxosFull_configuration_own
-import ScrapliProps.C05.nxosFull_privilege_exec_own
-import ScrapliProps.C05.nxosSFull_configuration_for
 import ScrapliProps.C05.nxosS_configuration_det
 import ScrapliProps.C05.nxosS_configuration_for
 import ScrapliProps.C05.nxosS_configuration_own
@@ -102,9 +94,11 @@ import ScrapliProps.C05.nxos_tclsh_own
   `decide +kernel` on `checkCertFor`), combined by `modeOK_of_empty` (C05Lemmas.lean).
   `…S` suites: the same driver after `register_configuration_session` — every mode again (the joined
   pattern and the set of foreign levels have changed) plus the session modes.
-  Where the unchanged code does NOT satisfy the statement for the grammar as the property states it,
-  `…_full_refuted` is proved from a machine-checked witness prompt and the `ModeOK` theorem of the
-  same mode holds for the grammar restricted by the finding's predicate (F12, F24, F25, F26).
+  Where the code does NOT satisfy the statement for the grammar as the property states it, the `ModeOK`
+  theorem here holds for the grammar restricted by the finding's predicate (F12, F24, F25, F26) and the
+  GENERATED file `ScrapliProps/C05Full.lean` states the verdict for the unrestricted grammar on the current
+  tree: `…_full_refuted : ¬ ModeOK …` from a machine-checked witness prompt while the defect exists,
+  `…_full : ModeOK …` from three certificates once it is repaired.
 -/
 set_option maxRecDepth 100000
 namespace Scrapli.C05
@@ -391,29 +385,5 @@ theorem junos_all : ∀ m ∈ junos.modes, ModeOK junos.table m := by
   | 3, _ => exact junos_root_shell
   | k + 4, h => omega
 
-
-/-! ### the grammars as the property states them: refuted on the unchanged tree (open findings) -/
-
-/-- F12: Junos configuration prompt of a user whose name ends in `root` (`root@r1#`) is ALSO root_shell -/
-theorem junos_configuration_full_refuted : ¬ ModeOK junosFull.table (nthMode junosFull.modes 0) :=
-  refute _ _ Gen.Cert_junosFull_configuration_for.witness (by decide +kernel) (by decide +kernel)
-/-- F12: Junos shell prompt containing `root` in the host name (`_@root$`) is NO level -/
-theorem junos_shell_full_refuted : ¬ ModeOK junosFull.table (nthMode junosFull.modes 1) :=
-  refute _ _ Gen.Cert_junosFull_shell_own.witness (by decide +kernel) (by decide +kernel)
-/-- F24: NX-OS privilege_exec prompt of a host whose name contains `-tcl` is NO level -/
-theorem nxos_privilege_exec_full_refuted : ¬ ModeOK nxosFull.table (nthMode nxosFull.modes 0) :=
-  refute _ _ Gen.Cert_nxosFull_privilege_exec_own.witness (by decide +kernel) (by decide +kernel)
-/-- F24: NX-OS configuration prompt of a host whose name contains `config-s-` is NO level -/
-theorem nxos_configuration_full_refuted : ¬ ModeOK nxosFull.table (nthMode nxosFull.modes 1) :=
-  refute _ _ Gen.Cert_nxosFull_configuration_own.witness (by decide +kernel) (by decide +kernel)
-/-- F25: NX-OS with a registered session: a configuration sub-mode whose name starts with `s`
-    (`(config-s0)`, really: `(config-subif)`) is configuration AND every session -/
-theorem nxosS_configuration_full_refuted : ¬ ModeOK nxosSFull.table (nthMode nxosSFull.modes 0) :=
-  refute _ _ Gen.Cert_nxosSFull_configuration_for.witness (by decide +kernel) (by decide +kernel)
-/-- F26: EOS session prompt of a host whose name contains `_` is NO level (and not found by the channel) -/
-theorem eosS_session0_full_refuted : ¬ ModeOK eosSFull.table (nthMode eosSFull.modes 0) :=
-  refute _ _ Gen.Cert_eosSFull_session0_own.witness (by decide +kernel) (by decide +kernel)
-theorem eosS_session1_full_refuted : ¬ ModeOK eosSFull.table (nthMode eosSFull.modes 1) :=
-  refute _ _ Gen.Cert_eosSFull_session1_own.witness (by decide +kernel) (by decide +kernel)
 
 end Scrapli.C05
